@@ -30,7 +30,7 @@ TrReset == /\ IsEvent("reset") /\ ainfo' = <<>> /\ cinfo' = <<>> /\ ns' = <<>> /
 
 TrAddr == IsEvent("addr") /\ ainfo' = Put(ainfo, Cur.a, [relay |-> Cur.relay]) /\ UNCHANGED <<cinfo, ns, inCall, normalGen>>
 TrConnAdd == IsEvent("conn_add") /\ cinfo' = Put(cinfo, Cur.conn, [limited |-> Cur.limited]) /\ UNCHANGED <<ainfo, ns, inCall, normalGen>>
-TrNoop == (IsEvent("conn_close") \/ IsEvent("conn_add_refused")) /\ UNCHANGED <<ainfo, cinfo, ns, inCall, normalGen>>
+TrNoop == (IsEvent("conn_close") \/ IsEvent("conn_add_refused") \/ IsEvent("hook")) /\ UNCHANGED <<ainfo, cinfo, ns, inCall, normalGen>>
 
 \* a relay address is handed to a transport only if some caller that may use one is waiting
 TrTStart == /\ IsEvent("tdial_start") /\ Cur.a \in DOMAIN ainfo
@@ -61,13 +61,19 @@ TrNsStream == /\ IsEvent("ns_ret") /\ Cur.res = "stream" /\ Cur.c \in inCall
 \* ... or fails because only a limited connection (or none) is there: never while a direct one is open
 TrNsNoDirect == /\ IsEvent("ns_ret") /\ Cur.res \in {"limitedconn", "noconn", "waittimeout"} /\ Cur.c \in inCall
                 \* (a caller that picked one particular connection itself is refused on that connection alone)
-                /\ (~Cur.direct_open \/ ns[Cur.c].onconn)
+                \* (a direct connection that appeared at the very instant of the return may have come after the
+                \* decision: the harness makes connections appear synchronously inside the call)
+                /\ (~(Cur.direct_open /\ Cur.direct_since < Cur.t) \/ ns[Cur.c].onconn)
                 /\ (Cur.res = "limitedconn" => ~ns[Cur.c].allow)
                 /\ (Cur.res = "waittimeout" => Cur.t - ns[Cur.c].t >= 15000)
                 /\ Leave(Cur.c) /\ UNCHANGED <<ainfo, cinfo, ns>>
 \* ... or with the caller's own context error, promptly
+\* (a caller that may not dial can only have been waiting for a direct connection: it is never sent away
+\* with a context error while a direct connection that appeared strictly earlier is still open - "waits for
+\* a direct connection and fails if none appears in time")
 TrNsCtx == /\ IsEvent("ns_ret") /\ Cur.res = "ctx" /\ Cur.c \in inCall
            /\ Cur.dl > 0 /\ Cur.t = Cur.dl
+           /\ ((ns[Cur.c].nodial /\ ~ns[Cur.c].onconn) => ~(Cur.direct_open /\ Cur.direct_since < Cur.t))
            /\ Leave(Cur.c) /\ UNCHANGED <<ainfo, cinfo, ns>>
 \* ... or because dialling failed (only if it was allowed to dial)
 TrNsDialErr == /\ IsEvent("ns_ret") /\ Cur.res = "dialerr" /\ Cur.c \in inCall
